@@ -194,7 +194,17 @@ def r1(ctx):
 def r3(ctx):
     f = ctx.fn(BASEDEMUX, 'phredToFastqHeaderSafeQualities')
     subs = [n for n in walk_no_nested(f) if isinstance(n, ast.Subscript) and src(n.value) in ('string.ascii_letters',) ]
-    ctx.need('C01-R3', len(subs), 1, 'subscripts into the letter table of the encoder')
+    if not subs or any(isinstance(c, ast.Call) and isinstance(c.func, ast.Attribute) and c.func.attr == 'translate' for c in walk_no_nested(f)):
+        # other encoder idioms (constant translation table) are handled by the codec rule C04-R1
+        from ..core import Ctx
+        from . import C04
+        sub = Ctx(ctx.ix, 'C04', ctx.tier)
+        C04.r1(sub)
+        for o in sub.obligations:
+            o.construct = o.construct.replace('C04-R1', 'C01-R3')
+            o.rule = 'C01-R3'
+            ctx.obligations.append(o)
+        return
     for sub in subs:
         table = src(sub.value)
         lo, hi = bounds(sub.slice, table)
